@@ -65,6 +65,20 @@ def call_rules(run, r_call, r_final, u):
                 hb = [h.bb for h in handler]
                 ok = any(reach(ne_edge, h) for h in hb)
                 why = "the 'different' outcome does not lead to the error handler"
+                if ok:
+                    # ... on EVERY path: no return is reachable from the 'different' edge without passing the handler call
+                    rets = {i.bb for i in f.all_insts() if i.op == "ret"}
+
+                    def escapes(b, seen):
+                        if b in hb or b in seen:
+                            return False
+                        seen.add(b)
+                        if b in rets:
+                            return True
+                        return any(escapes(s2, seen) for s2 in f.succ(b))
+                    if escapes(ne_edge, set()):
+                        ok = False
+                        why = "with dynamic id != static id a path returns a pointer without reporting the method_table_error (the report depends on a further condition)"
                 # error.type = dynamic id
                 lo = mod.layout_by_name.get("yorel::yomm2::method_table_error")
                 if ok and lo:
